@@ -251,6 +251,114 @@ theorem runState_keeps_anonymized (ops : List Op) (s : State) (k : Bytes)
     · rw [step_settings]; exact dictGet_settingsStep_true _ _ _ h (hno o (by simp))
     · intro o' ho'; exact hno o' (by simp [ho'])
 
+/-! ### circuits whose removal was requested -/
+
+/-- every circuit registered under `cid` is CLOSING, and `cid` has already been handed out (fresh circuits get
+    other ids) -/
+def ClosedFor (cid : Nat) (s : State) : Prop :=
+  (∀ c ∈ s.comm.circuits, c.cid = cid → c.closing = true) ∧ cid < s.comm.nextId
+
+theorem mem_modifyAt (f : Circuit → Circuit) (l : List Circuit) (i : Nat) (c' : Circuit)
+    (h : c' ∈ modifyAt f l i) : c' ∈ l ∨ ∃ c ∈ l, c' = f c := by
+  induction l generalizing i with
+  | nil => simp [modifyAt] at h
+  | cons x xs ih =>
+    cases i with
+    | zero =>
+      simp only [modifyAt, List.mem_cons] at h
+      rcases h with rfl | h
+      · exact Or.inr ⟨x, by simp, rfl⟩
+      · exact Or.inl (by simp [h])
+    | succ n =>
+      simp only [modifyAt, List.mem_cons] at h
+      rcases h with rfl | h
+      · exact Or.inl (by simp)
+      · rcases ih n h with h | ⟨c, hc, rfl⟩
+        · exact Or.inl (by simp [h])
+        · exact Or.inr ⟨c, by simp [hc], rfl⟩
+
+theorem closedFor_create (cid : Nat) (cm : Community) (g : Nat) (t : CType)
+    (h : (∀ c ∈ cm.circuits, c.cid = cid → c.closing = true) ∧ cid < cm.nextId) :
+    (∀ c ∈ (cm.create g t).1.circuits, c.cid = cid → c.closing = true) ∧ cid < (cm.create g t).1.nextId := by
+  unfold Community.create
+  split
+  · refine ⟨?_, by simp; omega⟩
+    intro c hc hcid
+    simp only [List.mem_append, List.mem_singleton] at hc
+    rcases hc with hc | rfl
+    · exact h.1 c hc hcid
+    · simp at hcid; omega
+  · exact h
+
+theorem closedFor_step (cid : Nat) (s : State) (o : Op) (h : ClosedFor cid s) : ClosedFor cid (step s o).1 := by
+  obtain ⟨hc, hn⟩ := h
+  cases o with
+  | send a p =>
+    simp only [step]
+    rcases send_cases s a p with ⟨_, e⟩ | ⟨_, _, e⟩ | ⟨_, _, c, _, _, e⟩ | ⟨_, _, c, _, _, e⟩ | ⟨_, _, _, e⟩
+    · rw [e]; exact ⟨hc, hn⟩
+    · rw [e]; exact ⟨hc, hn⟩
+    · rw [e]; exact ⟨hc, hn⟩
+    · rw [e]; exact ⟨hc, hn⟩
+    · rw [e]; exact closedFor_create cid s.comm _ _ ⟨hc, hn⟩
+  | newCircuit g t =>
+    refine ⟨?_, by simp [step]; omega⟩
+    intro c hmem hcid
+    simp only [step, List.mem_append, List.mem_singleton] at hmem
+    rcases hmem with hmem | rfl
+    · exact hc c hmem hcid
+    · simp at hcid; omega
+  | addHop i hp =>
+    refine ⟨?_, by simpa [step] using hn⟩
+    intro c hmem hcid
+    simp only [step] at hmem
+    rcases mem_modifyAt _ _ _ _ hmem with hm | ⟨c0, hm, rfl⟩
+    · exact hc c hm hcid
+    · exact hc c0 hm hcid
+  | close i =>
+    refine ⟨?_, by simpa [step] using hn⟩
+    intro c hmem hcid
+    simp only [step] at hmem
+    rcases mem_modifyAt _ _ _ _ hmem with hm | ⟨c0, hm, rfl⟩
+    · exact hc c hm hcid
+    · rfl
+  | remove i =>
+    refine ⟨?_, by simpa [step] using hn⟩
+    intro c hmem hcid
+    simp only [step] at hmem
+    exact hc c (List.mem_of_mem_eraseIdx hmem) hcid
+  | removeRequest cid' =>
+    refine ⟨?_, by simpa [step] using hn⟩
+    intro c hmem hcid
+    simp only [step, closeById, List.mem_map] at hmem
+    obtain ⟨c0, hm, rfl⟩ := hmem
+    by_cases h' : c0.cid = cid'
+    · simp [h']
+    · simp only [h', if_false] at hcid ⊢; exact hc c0 hm hcid
+  | removeDone cid' =>
+    refine ⟨?_, by simpa [step] using hn⟩
+    intro c hmem hcid
+    simp only [step, popById, List.mem_filter] at hmem
+    exact hc c hmem.1 hcid
+  | overlay cid' b => cases b <;> exact ⟨by simpa [step] using hc, by simpa [step] using hn⟩
+  | _ => exact ⟨by simpa [step] using hc, by simpa [step] using hn⟩
+
+theorem closedFor_runState (cid : Nat) (ops : List Op) (s : State) (h : ClosedFor cid s) :
+    ClosedFor cid (runState s ops) := by
+  induction ops generalizing s with
+  | nil => exact h
+  | cons o os ih => exact ih _ (closedFor_step cid s o h)
+
+theorem closedFor_request (cid : Nat) (s : State) (h : cid < s.comm.nextId) :
+    ClosedFor cid (step s (.removeRequest cid)).1 := by
+  refine ⟨?_, by simpa [step] using h⟩
+  intro c hmem hcid
+  simp only [step, closeById, List.mem_map] at hmem
+  obtain ⟨c0, _, rfl⟩ := hmem
+  by_cases h' : c0.cid = cid
+  · simp [h']
+  · simp only [h', if_false] at hcid
+
 /-- lifting a per-step fact that holds in every state to every entry of a trace -/
 theorem trace_forall (P : State → Op → List Event → Prop) (hP : ∀ s o, P s o (step s o).2) :
     ∀ (ops : List Op) (s : State), ∀ x ∈ trace s ops, P x.1 x.2.1 x.2.2 := by
